@@ -162,3 +162,14 @@ fn d3_bash_filedir_directive_ends_its_line() {
     }
     assert!(out.contains("_filedir\n"), "{:?}", out);
 }
+
+/// D13 (C20), the `autocomplete` half: same parser, same line, same message as in findings/demo_nofeat
+#[test]
+fn d13_ambiguous_cluster_with_autocomplete() {
+    let a1 = short('a').switch();
+    let a2 = short('a').argument::<String>("X").optional();
+    let b = short('b').switch();
+    let p = construct!(a1, a2, b).to_options();
+    let msg = p.run_inner(&["-ab"]).unwrap_err().unwrap_stderr();
+    assert!(msg.contains("as both an option and an option-argument"), "{}", msg);
+}
